@@ -53,6 +53,21 @@ CLAIMED = {
          "remain (C19_capture_shape), its head is the caller's line at all six API sites (C19_capture_head), nested/store/output calls inherit it "
          "(C19_inherit_*), rendering lists frames outermost first (C19_render_order). F5 is a recorded known finding with its model witness "
          "(C19_registered_literal_defect).", "4/C19"),
+ "C11": ("proof", "Lean 4 proof (fault-schedule model of staged writes, all fault positions/kinds) + fault injection at every file operation incl. os._exit",
+         "For any fault schedule the target afterwards is exactly the old file or the complete new content, its mtime changed iff the new content is in "
+         "place (C11_atomic, C11_mtime, C11_failed_unchanged); no staging file after a failure by exception (C11_no_staging*, with the negation witness "
+         "for the pre-fix code, F2); a stale staging file disturbs neither the next write nor reads (C11_stale_staging*); all five stores and both "
+         "helpers are instances (C11_stores, C11_staged_write*).", "4/C11"),
+ "C12": ("proof", "Lean 4 proof, partial (newline/text layer, binary, touch, mounted, mtime proved; json/pickle/utf codecs hypotheses) + exact-prediction differential",
+         "read(write(s)) = s for the regenerated newline mode for every string (C12_text_roundtrip; universal-newline characterisation and defect witness "
+         "F1), binary/touch/mounted round-trips, codec stores under a round-trip hypothesis, get_modified_time None iff nothing stored and monotone.", "4/C12"),
+ "C15": ("proof", "Lean 4 proof (well-bracketed engine event log => Legal notification sequence, exact totals) + recording observers under controlled schedules",
+         "For every reachable returned engine state the notification sequence is Legal (C15_legal, C15_run), totals are positive / never exceeded / "
+         "announced first (C15_extras), and after a normal return total = #calls per scope = #completed (C15_totals); protocol facts re-decided (C15_protocol).", "4/C15"),
+ "C20": ("proof", "Lean 4 proof, partial (bookkeeping, strings, last render, elapsed sum over Q, sort totality proved; floats/ipywidgets sampled) + real observers with fake clock",
+         "On every Legal sequence (plus the predicates C15 proves of runs) the State bookkeeping never fails, the HTML division is safe, the last "
+         "rendering shows the final state, Sum weighted_elapsed = busy time exactly over Q, the sort with fallback never raises (C20_*); witness for "
+         "fixed finding F4.", "4/C20"),
  "C10": ("proof", "Lean 4 proof (error-bound invariant over generated stop condition) + trace refinement check",
          "running <= workers, pool size <= workers, failures <= k + workers for max_errors = k, no early stop, idle workers can always take ready "
          "items (C10_workers, C10_pool, C10_errors_bound, C10_no_early_stop, C10_none, C10_parallel, C10_parallel_begin); retry: attempts = "
@@ -63,6 +78,26 @@ CLAIMED = {
          "(C17_no_new, C17_no_new_ever, C17_inflight). Partial: signal delivery window before `stop = True` is runtime behaviour.", "4/C17"),
 }
 NOTES = {
+ "C11": ("Theorems are about Model/FileStore.lean (file system = path -> (content, mtime) + clock; a write is open-truncate staging, write chunks, close, "
+         "replace, with the clean-up of the exception path; fault schedules of raise/die with partial effect at any operation, any number of faults) "
+         "instantiated with the regenerated Gen.FileStore (staging suffix, position of os.replace relative to the try, handler type, per-store open "
+         "modes and guards). Tie: T1 regenerates; T2 wraps builtins.open / os.replace / os.remove from the harness, compares the observed op trace of "
+         "all five stores and both helpers with the model, injects OSError/TypeError/KeyboardInterrupt at EVERY op index and os._exit (forked child, "
+         "fresh interpreter) at every index, then compares target bytes, mtime change and directory listing. Trusted: the OS file API "
+         "(os.replace atomic within a directory, getmtime), CPython's open()."),
+ "C12": ("Theorems are about Model/TextCodec.lean + Model/Stores.lean with the regenerated newline/encoding arguments. PARTIAL: json, pickle and the "
+         "utf-8/utf-16/locale codecs are parameters with a round-trip hypothesis (C12_trusted_codecs), validated only by the sampled runs; latin-1, the "
+         "newline layer, binary, touch, mounted stores and the modified-time statements are proved. Tie: T1 + T2 on real stores in a temp directory, the "
+         "model predicting the exact bytes on disk and the exact read-back string."),
+ "C15": ("Theorems are about Model/Notify.lean (what the observer is told, read off the engine model's event log of ANY reachable returned state) and "
+         "the Legal/PosTotals/WithinTotals/TotalsFirst predicates of Model/Progress.lean. Tie: T1 regenerates Gen.Observer (with-observer block, "
+         "totals before phases, running/completed/failed placement, same scope functions, composite forwarding); T3/T2: recording observers on "
+         "generated plans under controlled schedules; every recorded sequence is judged by the Lean predicates and, per engine invocation, compared with "
+         "the block the model derives from the engine's event log. BaseException raised by a call is excluded, as in the statement."),
+ "C20": ("Theorems are about Model/Progress.lean (State bookkeeping with every right-hand side regenerated from _simple_progress_observer.py, update "
+         "thread / render points, console print-once logic, sort with fallback) over ALL legal notification sequences with render points anywhere and "
+         "rational clock readings. PARTIAL: float rounding of weighted_elapsed, traceback.format_exception, html.escape, ipywidgets, CPython's sorted "
+         "are sampled, not proved. Tie: T1 + T2 driving the real Console/HTML/IPython observers with a fake clock, comparing State after every event."),
  "C19": ("Theorems are about Model/Traceback.lean (Python stack = list of frames; capture/render built from the regenerated truncation test, depth "
          "decrement, constants and format string of _util/traceback.py) and the regenerated call-site facts (which API functions capture directly, "
          "which nested creations inherit the captured frame). Tie: T1 regenerates Gen/Traceback.lean; T2 nests every kind of symbolic call at depths "
